@@ -79,6 +79,8 @@ type intraProxyStreamSender struct {
 	sourceShardID      history.ClusterShardID
 	streamID           string
 	sourceStreamServer adminservice.AdminService_StreamWorkflowReplicationMessagesServer
+	// shutdown ends the server stream this sender writes to (set by Run)
+	shutdown channel.ShutdownOnce
 }
 
 func (s *intraProxyStreamSender) Run(
@@ -97,6 +99,7 @@ func (s *intraProxyStreamSender) Run(
 	defer st.UnregisterStream(s.streamID)
 
 	s.sourceStreamServer = sourceStreamServer
+	s.shutdown = shutdownChan
 
 	// register this sender so sendMessages can use it
 	s.shardManager.GetIntraProxyManager().RegisterSender(s.peerNodeName, s.targetShardID, s.sourceShardID, s)
@@ -789,6 +792,11 @@ func (m *intraProxyManager) closePeerShardLocked(peer string, ps *peerState, key
 	st := GetGlobalStreamTracker()
 	srvID := BuildIntraProxySenderStreamID(peer, key.targetShard, key.sourceShard)
 	st.UnregisterStream(srvID)
+	// End the server stream as well: a sender that is only dropped from the table leaves the peer with a
+	// live-looking stream that nothing is ever sent on, and the peer never re-establishes it.
+	if snd, ok := ps.senders[key]; ok && snd != nil && snd.shutdown != nil {
+		snd.shutdown.Shutdown()
+	}
 	delete(ps.senders, key)
 }
 
